@@ -25,6 +25,9 @@ def run(ctx) -> None:
     jsonrules.rule_K3(ctx)
     jsonrules.rule_J1(ctx)
     jsonrules.rule_J6(ctx)
+    from . import presence
+    ctx.rules_run.append("J3")
+    presence.rule_D4(ctx, "J3")     # an object read from reference JSON is present, empty or not
     ctx.rules_run += ["K4", "K5"]
     jsonrules.rule_K4(ctx)
     jsonrules.rule_K5(ctx)
